@@ -248,7 +248,7 @@ func cmdCheck(args []string) {
 	}
 
 	// ---- native replay ----
-	replayRoot := filepath.Join(verifDir(), "replay", id)
+	replayRoot := filepath.Join(outDir(), "replay", id)
 	os.RemoveAll(replayRoot)
 	validated := 0
 	noteMismatch := 0
@@ -512,8 +512,8 @@ func writeEvidence(id, tier string, seed int, ps *PropSpec, L *Loaded, runs []*H
 		},
 	}
 	b, _ := json.MarshalIndent(ev, "", " ")
-	os.MkdirAll(filepath.Join(verifDir(), "evidence"), 0o755)
-	os.WriteFile(filepath.Join(verifDir(), "evidence", id+".json"), b, 0o644)
+	os.MkdirAll(filepath.Join(outDir(), "evidence"), 0o755)
+	os.WriteFile(filepath.Join(outDir(), "evidence", id+".json"), b, 0o644)
 }
 
 func prefixAll(p string, ss []string) []string {
